@@ -389,6 +389,10 @@ pub struct Scenario {
     pub settle_ns: u64,
     /// drop all client handles in the epilogue (false: leave them alive to the very end)
     pub drop_handles: bool,
+    /// which property's profile generated this scenario (informational; oracles that are applied
+    /// to several profiles use it to select the rules that are sound there)
+    #[serde(default)]
+    pub profile: String,
 }
 
 impl Scenario {
@@ -409,6 +413,7 @@ impl Scenario {
             },
             settle_ns: 0,
             drop_handles: true,
+            profile: String::new(),
         }
     }
     pub fn spec_of(&self, aidx: ActorIdx) -> &ActorSpec {
